@@ -25,7 +25,8 @@ ASSUMPTIONS = ["the generator renders cells to text faithfully", "fractions.Frac
 MONITORS = ["decode", "repeat_iteration", "interleaved_iteration", "ordering_ops", "str_identity", "columns", "via_chart"]
 REQUIRED = ["measure_repeated_after_empty_measures", "odd_rows", "rows_192", "rows_above_192", "keysound_shifts_later_column", "three_players", "crlf",
             "same_position_pair", "cross_player_pair", "corpus_chart", "interleaved_passes_over_keysounded_rows",
-            "constructed_by_keyword", "note_beyond_measure_256", "measure_separator_on_a_row_line"]
+            "constructed_by_keyword", "note_beyond_measure_256", "measure_separator_on_a_row_line",
+            "inexact_beats_of_equal_value_built_before_decoding"]
 
 
 def anchors():
@@ -142,6 +143,17 @@ def check(ctx, case):
             if e[5] is not None:
                 seen.add(key)
 
+    # beats equal in value to the chart's beats are built first from floats and decimal strings (they snap to the
+    # tick grid, as the timing engine does all the time): decoding must still give the exact row fractions
+    from simfile.timing import Beat as _B
+
+    offgrid = sorted({(e[1] % (4 * e[2]), e[2]) for e in exp if 48 % e[2]})[:12]
+    for num, den in offgrid:
+        _B(num / den)
+        _B(str(num / den))
+        _B(num, den) + 0
+    if offgrid:
+        ctx.feat("inexact_beats_of_equal_value_built_before_decoding")
     # the documented parameter name is part of the interface: every third chart is constructed by keyword
     if ctx.evaluations % 3 == 1:
         nd = api_call(ctx, "NoteData(source=)", NoteData, source=text)
